@@ -27,11 +27,11 @@ TARGETS = ['model/M_C10.vo', 'proofs/L_C10.vo', 'proofs/L_C10_DK.vo', 'proofs/L_
 COQ_FILES = ['base/Num.v', 'model/M_C10.v', 'proofs/L_C10.v', 'proofs/L_C10_DK.v', 'proofs/L_C10_End.v', 'proofs/L_C10_DKV.v', 'props/P_C10.v']
 TRUSTED = ['Coq 8.16.1 kernel + vm_compute (no native_compute)',
            'tools/vlib/py2coq.py translator (expm1(x) -> exp x - 1, log1p(x) -> ln(1 + x): exact over R, less accurate in binary64 near 0)',
-           'hand models of _log_relative_difference / _pow_relative_difference / the x2==x1 guard / _symmetric_matrix_function_jvp_helper (M_C10.v), '
-           'tied by binary64 correspondence given the implementation\'s own eigen-pairs',
+           'hand models of the x2==x1 guard / _symmetric_matrix_function_jvp_helper (M_C10.v), tied by binary64 correspondence given the '
+           'implementation\'s own eigen-pairs (the log / pow relative-difference kernels are regenerated: Gen_TensorMathFun)',
            'model-side binary64 exp/ln approximations (|rel err| < 1e-14) used only to execute models',
            'JAX autodiff of all other primitives: not proved, compared with finite differences of the energy density',
-           'the three *_relative_difference_exact lemmas of proofs/L_C12.v (restated)']
+           'the sqrt/exp/plain-log *_relative_difference_exact lemmas of proofs/L_C12.v and the argsort log / pow kernel lemmas of proofs/L_C12_RD.v (restated)']
 ASSUMPTIONS = ['theorems over exact reals; binary64 behaviour only through the correspondence',
                'envelope / implicit-function theorems assume Frechet differentiability of the potential / residual at the point (Coquelicot filterdiff) '
                'and differentiability of the internal variable; at the yield switch itself nothing is claimed; the bracket handed to find_root '
@@ -179,7 +179,7 @@ def kernels_layer(ctx, model_ok):
     ex = []
     for (l1, l2) in pairs:
         a = '%s %s' % (C.cf(l1), C.cf(l2))
-        ex.append('fencs [_sqrt_relative_difference %s; _exp_relative_difference %s; log_rd %s; ad_rel_log %s; ad_rel_log_taylor %s; ad_rel_log_plain %s; pow_rd %s %s]'
+        ex.append('fencs [_sqrt_relative_difference %s; _exp_relative_difference %s; _log_relative_difference %s; ad_rel_log %s; ad_rel_log_taylor %s; ad_rel_log_plain %s; _pow_relative_difference %s %s]'
                   % (a, a, a, a, a, a, a, C.cf(M)))
     res = C.coq_eval(IMPORTS, ex, 'C10k', shard=300)
     nm = 0
@@ -218,7 +218,7 @@ def kernels_layer(ctx, model_ok):
     hr = ctx.rng('helper')
     hc, hex_ = [], []
     DF = dict(sqrt='(fun x => ndiv nhalf (nsqrt x))', exp='nexp', log='(fun x => ndiv nunit x)')
-    REL = dict(sqrt='_sqrt_relative_difference', exp='_exp_relative_difference', log='log_rd')
+    REL = dict(sqrt='_sqrt_relative_difference', exp='_exp_relative_difference', log='_log_relative_difference')
     FUN = dict(sqrt=(Math.safe_sqrt, TM._sqrt_relative_difference), exp=(np.exp, TM._exp_relative_difference), log=(np.log, TM._log_relative_difference))
     for i in range(ctx.n(18, 150)):
         kind = ['sqrt', 'exp', 'log'][i % 3]
